@@ -6,7 +6,7 @@ use crate::engines::poolsim::*;
 use crate::engines::timeout::*;
 
 const PROFILE: Weights = Weights {
-    issue: 16, poll: 28, cancel: 2, dial_ok: 14, dial_fail: 2, hs_ok: 14, hs_fail: 1, release: 5, ready: 8, close: 1, takeover: 0, bg: 12, warm: 4, advance: 12, hold: 6,
+    issue: 16, poll: 28, cancel: 2, dial_ok: 14, dial_fail: 2, hs_ok: 14, hs_fail: 1, release: 5, ready: 8, close: 1, takeover: 0, bg: 12, warm: 4, advance: 12, hold: 6, sleep: 0,
     h2_pct: 45, alpn_pct: 5, origins: 2,
 };
 
